@@ -506,4 +506,68 @@ example : LayoutEq pyDef ['a',' ','=','1'] ['a','=','1'] := by
 theorem source_map_pure (src : Str) (b e : Nat) (history : List (Str × Nat × Nat)) :
     (history.map (fun h => mkMap h.1 h.2.1 h.2.2), mkMap src b e).2 = mkMap src b e := rfl
 
+/-! ### round 5 — the specification determines the lexer: lex = spec -/
+
+/-- the strengthened first-token specification holds of the lexer: `TokSpec2` = dispatch by the first accepting domain,
+    maximal munch for the kind, type and string from the `kindOf` table (line break vs white space by a newline, decimal
+    vs digit by a dot, regexp vs string by the first character, combined symbols `BeginCombine + index`, single symbols
+    `Symbol<<4 + index`, the unary-minus marker iff the minus is followed by a non-white-space character), and an
+    unterminated literal ends right after the last (escaped) occurrence of its closing sequence (`UntermEnd`) -/
+theorem first_token_spec2 (d : TokenDef) (hw : wf d = true) (hwl : wfLayout d = true) (s : Str) (hne : s ≠ []) (e : Nat) (t : Token)
+    (h : Lexer.step d s = .ok (e, t)) : TokSpec2 d s e (simplify t) :=
+  step_spec2 hw hwl hne h
+
+/-- the specification is functional: it fixes length, type and string of the first token -/
+theorem first_token_unique (d : TokenDef) (s : Str) (e e' : Nat) (q q' : Nat × Str)
+    (h : TokSpec2 d s e q) (h' : TokSpec2 d s e' q') : e = e' ∧ q = q' :=
+  tokSpec2_unique h h'
+
+/-- **lex = spec.** When `parse_impl` accepts a source, its raw token sequence (types and strings) satisfies the declarative
+    specification `LexSpec2`, and it is the *only* sequence that does. -/
+theorem lex_unique (d : TokenDef) (hw : wf d = true) (hwl : wfLayout d = true) (s : Str) (L : List (Nat × Str))
+    (h : lexS d s = .ok L) : LexSpec2 d s L ∧ ∀ L', LexSpec2 d s L' → L' = L := by
+  have hs := lexS_spec2 hw hwl s.length s L (Nat.le_refl _) h
+  exact ⟨hs, fun L' h' => lexSpec2_unique h' hs⟩
+
+/-- non-vacuity: a source with every kind of token, an unterminated literal at the end included, is accepted (so `lex_unique`
+    applies); the unterminated `'ab` is the one-character literal `'` followed by the name `ab` -/
+example : lexS pyDef ['x',' ','-','=','1','.','5','#','c','\n','-','y','\'','a','b']
+    = .ok [(T.name, ['x']), (T.whiteSpace, [' ']), (112, ['-','=']), (T.decimal, ['1','.','5']), (T.comment, ['#','c']),
+           (T.lineBreak, ['\n']), (T.minus, Special.opUnaryMinus), (T.name, ['y']), (T.string, ['\'']), (T.name, ['a','b'])] := by rfl
+
+/-! ### the evidence computed: layout rewrites described by position -/
+
+/-- **Blanks / blank lines by position.** `insertAt src pos w` = `src` with `w` inserted at offset `pos`. Whenever the decidable
+    check `blankInsertOK` passes (it lexes the prefix token by token and checks what `TokPrefix` demands — whole, terminated
+    tokens, the last one tolerating white space — and that `w` is admissible white space), `Tokenizer.parse` is unchanged up
+    to source maps. The hand-built `TokPrefix` evidence of `layout_chars_blank` is thereby computed (`tokPrefixCheck_sound`). -/
+theorem layout_blank_by_position (d : TokenDef) (hr : layoutReady d) (src : Str) (pos : Nat) (w : Str)
+    (h : blankInsertOK d src pos w = true) :
+    (tokenize d src).map (List.map simplify) = (tokenize d (insertAt src pos w)).map (List.map simplify) :=
+  layout_blank_at hr src pos w h
+
+/-- **Trailing comment by position.** -/
+theorem layout_comment_by_position (d : TokenDef) (hr : layoutReady d) (src : Str) (pos : Nat) (w body : Str) (p : Str × Str)
+    (h : commentInsertOK d src pos w body p = true) :
+    (tokenize d src).map (List.map simplify) = (tokenize d (insertAt src pos (w ++ (p.1 ++ body)))).map (List.map simplify) :=
+  layout_comment_at hr src pos w body p h
+
+/-- **Comment-only line by position.** -/
+theorem layout_comment_line_by_position (d : TokenDef) (hr : layoutReady d) (src : Str) (pos : Nat) (ind body : Str) (p : Str × Str)
+    (h : commentLineInsertOK d src pos ind body p = true) :
+    (tokenize d src).map (List.map simplify)
+      = (tokenize d (insertAt src pos (('\n' :: ind) ++ (p.1 ++ body)))).map (List.map simplify) :=
+  layout_comment_line_at hr src pos ind body p h
+
+/-- non-vacuity on a three-line source with brackets, a string, a binary minus and a comment: the checks pass (decided in the
+    kernel) for a blank after the comma inside the brackets, a blank line at the first line end, a trailing comment on the
+    last line and a comment-only line before `return`; in `y=-a` the check refuses a blank after the unary minus and accepts one before it -/
+example :
+    let src : Str := ['d','e','f',' ','f','(','a',',','b',')',':','\n','\t','x',' ','=',' ','\'','k','\'',' ','-',' ','a',' ','#',' ','c','\n','\t','r','e','t','u','r','n',' ','x','\n']
+    (blankInsertOK pyDef src 8 [' '] && blankInsertOK pyDef src 11 ['\n',' ',' '] &&
+      commentInsertOK pyDef src 38 [' ',' '] [' ','x'] (['#'], ['\n']) &&
+      commentLineInsertOK pyDef src 28 [' '] ['!'] (['#'], ['\n']) &&
+      !blankInsertOK pyDef ['y','=','-','a'] 3 [' '] && blankInsertOK pyDef ['y','=','-','a'] 2 [' ']) = true := by
+  decide +kernel
+
 end Tranp.C13
